@@ -35,7 +35,14 @@ pub fn run_structures(
     let before = rep.evals();
     let t0 = rep.elapsed();
     // selections per tree, computed once
-    let sels: Vec<Vec<Map<String, Value>>> = if with_selections { trees.iter().map(gen::selections).collect() } else { trees.iter().map(|_| vec![]).collect() };
+    let sels: Vec<Vec<Map<String, Value>>> = if with_selections {
+        trees.iter().map(gen::selections).collect()
+    } else if checks.c01 || checks.c06 {
+        // no enumeration asked for: select everything and nothing
+        trees.iter().map(|t| vec![gen::select_all(t), Map::new()]).collect()
+    } else {
+        trees.iter().map(|_| vec![]).collect()
+    };
     par_for(rep, items.len(), |i, l| {
         let (ti, strat) = &items[i];
         for cfg in cfgs(i) {
@@ -248,6 +255,36 @@ pub fn alphabet_trees(base: &[Value], names: &[&str]) -> Vec<Value> {
         }
     }
     out
+}
+
+/// Two special strings side by side in one container (one hidden value may then hold both):
+/// every ordered pair of the string alphabet in 5 container shapes.
+pub fn pair_alphabet_trees() -> Vec<Value> {
+    let strs: Vec<Value> = gen::leaf_alphabet().into_iter().filter(|v| v.is_string()).chain(["C:\\", "\\\"", "a\\", "\"", ",", ":", "{", "[\"", "\\u0041"].iter().map(|s| json!(s))).collect();
+    let mut out = vec![];
+    for x in &strs {
+        for y in &strs {
+            for t in [
+                json!({"a": {"a": x, "b": y}}),
+                json!({"a": [x, y]}),
+                json!({"a": x, "b": y}),
+                json!({"a": [{"a": x}, {"a": y}]}),
+                json!({"a": {"a": [x], "b": {"a": y}}}),
+            ] {
+                let mut m = Map::new();
+                m.insert("iss".into(), json!(gen::ISS));
+                m.insert("exp".into(), json!(gen::EXP));
+                for (k, v) in t.as_object().unwrap() {
+                    m.insert(k.clone(), v.clone());
+                }
+                out.push(Value::Object(m));
+            }
+        }
+    }
+    out
+}
+pub fn pair_strategies(_u: &Value) -> Vec<Strat> {
+    vec![Strat::Top, Strat::All, Strat::Custom(vec!["$.a".into()]), Strat::Custom(vec!["$.a".into(), "$.a.b".into(), "$.a[1]".into()])]
 }
 
 /// Single nested path of depth k; bit i of `pattern` says whether level i is an array (1) or object (0).
